@@ -195,15 +195,19 @@ theorem wp_isAreaInRange {m : Matrix} {K : Int} (bd : Bd m K) (hK : K ≤ 16000)
   have tc := bd.cols
   have tr := bd.rows
   simp only [Matrix.trackCounts, Axis.other]
-  refine wp_bind_ok (wp_len tc hK) ?_; rintro _ - rfl
-  obtain ⟨x1, x2, x3, x4, x5⟩ := tc
-  obtain ⟨y1, y2, y3, y4, y5⟩ := tr
-  refine wp_bind_ok (wp_i16 (by omega) (by omega)) ?_; rintro _ - rfl
   split
   · exact wp_pure trivial
-  · refine wp_bind_ok (wp_len ⟨y1, y2, y3, y4, y5⟩ hK) ?_; rintro _ - rfl
+  · refine wp_bind_ok (wp_len tc hK) ?_; rintro _ - rfl
+    obtain ⟨x1, x2, x3, x4, x5⟩ := tc
+    obtain ⟨y1, y2, y3, y4, y5⟩ := tr
     refine wp_bind_ok (wp_i16 (by omega) (by omega)) ?_; rintro _ - rfl
-    split <;> exact wp_pure trivial
+    split
+    · exact wp_pure trivial
+    · split
+      · exact wp_pure trivial
+      · refine wp_bind_ok (wp_len ⟨y1, y2, y3, y4, y5⟩ hK) ?_; rintro _ - rfl
+        refine wp_bind_ok (wp_i16 (by omega) (by omega)) ?_; rintro _ - rfl
+        split <;> exact wp_pure trivial
 
 /-- the implicit end lines after `mark_area_as`: the old one, or the end of the marked area if that is larger -/
 theorem markAreaAs_end {m m' : Matrix} {ax : Axis} {p s : Line Int} {v : Cell}
